@@ -8,6 +8,7 @@ import vec
 import cmp as cmpu
 import conv
 import refops
+import elem
 
 AAP = 'cntgs::detail::AllocatorAwarePointer<.*>::'
 AAP_UNITS = [
@@ -65,6 +66,10 @@ PROPERTY_META = {
                 explanation='Proof of empty write frames (dfcc assigns-clause checking of every store executed by a const operation), not an exploration of interleavings.',
                 assumptions=['data-race freedom follows from write-freedom only under the C++ memory model for plain loads', 'the allocator and value types used by copy construction are themselves thread-safe'],
                 design_ref='DESIGN.md 6 C19'),
+    'C12': dict(claimed=True, level='model_checking',
+                text='Contracts on the real BasicContiguousElement members (construction from a const and from an rvalue mutable reference, copy/move construction, destruction, copy/move assignment between elements of different varying sizes and allocators, swap) over the representation invariant WF_E: the element owns exactly one live block from an allocator equal to its own, the block holds the element, reference_ denotes the element at the start of the block; field values equal the source (witness byte; non-trivial items are copy- resp. move-constructed exactly once through the value type); the source element/vector memory is outside the assigns clause.',
+                note='Bounded: span items <= 2, blocks <= 16 storage units, loops unwound; allocator trait combinations enumerated. element = reference and reference = element are covered at the reference level (C11).',
+                design_ref='DESIGN.md 6 C12'),
     'C13': dict(claimed=True, level='model_checking',
                 text='The real ElementTraits::equal and the reference operators == / != are verified against a contract that says: result == (same span sizes AND every field value equal), with every byte of both elements (alignment padding included) nondeterministic, for lists on the memcmp path and on the element-wise path; reflexivity and symmetry are checked on the real functions. Span lengths are bounded (<= 3 items) because the comparison loops are unwound.',
                 note='Bounded: span items <= 3 per side, loops (memcmp model, std::equal) unwound 32 times with unwinding assertions; floating-point values exclude NaN. Vector == vector is not under contract.',
@@ -135,6 +140,17 @@ def units(tier, seed=0):
             us.append(dict(id='conv.%s_from_%s.%s' % (T, U, form), tu='conv_%s_%s' % (T, U), gen=cxx, template_text=conv.c_unit(T, U, form), vars={},
                            entry='h_uc', enforce='@F{%s}' % conv.FORMS[form][0], replace=[], props=['C15'], layer='memory.hpp/typeTraits.hpp',
                            kind='bounded(items <= 4, copy loop unwound)', unwind=6, cdefs=['VF_WINDOWS=1'], config='conversion: %s <- %s, %s' % (T, U, form)))
+    for spec, flags in elem.ELEM_CATALOGUE[tier]:
+        for f in flags:
+            txt, L = elem.c_unit(spec, f)
+            cxx = elem.cxx_tu(spec, f)
+            tracked = any(q.elem in 'tm' for q in L.params)
+            ulist = elem.ELEM_UNITS + (elem.ELEM_CMP_UNITS if all(q.elem in 'ux' for q in L.params) else [])
+            for name, h, key, props in ulist:
+                us.append(dict(id='elem.%s.F%d.%s' % (L.tag, f, name), tu='elem_%s_F%d' % (L.tag, f), gen=cxx, template_text=txt, vars={}, entry=h,
+                               enforce='@F{%s}' % elem.RXE[key], replace=[], props=props, layer='element.hpp',
+                               kind='bounded(span items <= 2, block <= 16 storage units, loops unwound)', unwind=24,
+                               cdefs=['VF_BLOCK_K=1'] + (['VF_TRACKED=1'] if tracked else []), config='element: %s, allocator traits F=%d' % (spec, f)))
     for spec in refops.REF_LISTS[tier]:
         txt, L = refops.c_unit(spec)
         cxx = refops.cxx_tu(spec)
